@@ -12,6 +12,11 @@ CHECKS = {
    text='Gen/Cdp2adp_gen.v is regenerated from the source on every run and Props/C07.v is re-checked against it: for every number type (floats included) the returned rho/eps pass the code\'s own test (sound) and the other bisection end fails it; on the reals cdp_delta equals the published Renyi-order bound at an alpha in [1.01, amax0], the tested expression is the derivative of the log-bound (Coquelicot), is increasing, the optimum is bracketed at every iteration with width (amax0-1.01)/2^n, and the bound is monotone in rho and eps for every order. The generated functions are executed on floats against the real functions, and a property oracle (exact Gaussian delta, golden-section optimum, monotonicity, round trips) searches the code for a failing input.',
    design='4/C07',
    note='Trusted: Coq kernel, translator/py2gallina.py (validated per run), extraction + ocaml/cdp driver (libm exp/log/log1p/sqrt). Axioms under the R theorems: the standard Reals axioms (sig_forall_dec, sig_not_dec, functional_extensionality_dep) and Classical_Prop.classic; the generic soundness theorems are closed. NOT proved: Bound(alpha) >= exact Gaussian delta (published Prop. 12) - observed on the grid; monotonicity/inverse of the composed conversions - observed.'),
+ 'C12': dict(
+   technique='Coq proofs (triangulation covers inputs; recursive running intersection => single top node per attribute; checker soundness) + differential correspondence of the elimination model and verified checkers run on the code\'s tree',
+   text='Props/C12.v: for every clique set and every elimination order the model of _triangulated yields an elimination clique containing each input clique; the computable conditions evaluated on the tree the code builds (rooted unfolding from every root reaches each node once, recursive running intersection, eliminated attributes = complement of the node) imply the textbook property that the nodes containing any attribute form one connected subtree; cover / attribute-coverage / antichain checks and the schedule check (each direction exactly once, after its dependencies) are proved sound. Each run compares the code\'s node set with the model\'s maximal elimination cliques (exhaustively for all graphs on <=4 (quick) / <=5 (thorough) attributes x orders, plus random sets up to 8 attributes) and evaluates the verified checkers on the code\'s tree and schedule.',
+   design='4/C12',
+   note='partial (rip_partial): that networkx\'s maximum-weight spanning tree always passes the running-intersection check is NOT proved in general; it is decided per tree by the verified checker. networkx find_cliques/minimum_spanning_tree/topological_sort/dfs are external, outputs validated. Theorems closed under the global context except functional_extensionality_dep where the rooted-tree library is used.'),
  'C14': dict(
    technique='Coq proof over a hand-written name-addressed Factor model (any value type, any scalar op) + differential correspondence of the extracted model against mbi.Factor/CliqueVector',
    text='Theorems (Props/C14.v): for every pair of factors over arbitrarily ordered/overlapping attribute lists and every scalar operation, each model operation (expand, transpose, binary ops through the merged domain, in-place variants, sum/max/logsumexp aggregation, project, condition, elementwise maps, CliqueVector combine) yields at every joint assignment the scalar operation applied to the operands\' values at that assignment, with result axes in the stated order; in-place = pure. The extracted model runs against the code on random factors (exact comparison; log-space ops after exp at 1e-9) on every run; a by-name Python oracle decides whether a disagreement is a property failure.',
